@@ -75,17 +75,19 @@ def run_rt(ctx, r, drv, h, sd, scale, trials):
         # crash or kill of the real code: a hit with the run as the replay
         r.hits.append(Hit('monitor', 'C09:runtime:crash',
                           'the run of the real primitives ended abnormally (rc=%d): %s' % (rc, out[-500:]), rep))
-    ins = [x for x in lines if x.startswith('IN LSEQ ')]
-    outs = [x for x in lines if x.startswith('OUT LSEQ ')]
+    ins = [x for x in lines if x.startswith('IN LSEQ ') or x.startswith('IN OSEQ ')]
+    outs = [x for x in lines if x.startswith('OUT LSEQ ') or x.startswith('OUT OSEQ ')]
     rc2, mout = sh([drv], input='\n'.join(ins) + '\n', timeout=600)
-    mouts = [x for x in mout.split('\n') if x.startswith('OUT LSEQ ')]
+    mouts = [x for x in mout.split('\n') if x.startswith('OUT LSEQ ') or x.startswith('OUT OSEQ ')]
+    r.count('sequential_diff:latch', len([x for x in ins if ' LSEQ ' in x]))
+    r.count('sequential_diff:call_once', len([x for x in ins if ' OSEQ ' in x]))
     diffs, ncases = diff_lines(ctx, outs, mouts)
     r.evaluations += ncases
     r.traces += ncases
     inmap = {(x.split(' ')[1], x.split(' ')[2]): x for x in ins}
     for (k, a, b) in diffs[:10]:
-        r.hits.append(Hit('corr', 'C09:latch_seq:correspondence',
-                          'latch (sequential): implementation and model differ on case %s: impl [%s] model [%s]' % (k, a, b),
+        r.hits.append(Hit('corr', 'C09:%s:correspondence' % ('latch_seq' if k[0] == 'LSEQ' else 'once_seq'),
+                          'latch / call_once (sequential): implementation and model differ on case %s: impl [%s] model [%s]' % (k, a, b),
                           dict(rep, case=inmap.get(k), impl=a, model=b)))
     for ln in lines:
         if ln.startswith('STAT '):
